@@ -110,6 +110,47 @@ Proof.
       assert (t_has k a (t_mem w) = true) by (apply t_get_has; eauto). congruence.
 Qed.
 
+Lemma m_get_In a m c : m_get a m = Some c -> In (a, c) m.
+Proof.
+  induction m as [|[k v] t IH]; cbn [m_get]; [ discriminate | ].
+  destruct (k =? a) eqn:E.
+  - intros H. injection H as <-. apply N.eqb_eq in E. subst. left. reflexivity.
+  - intros H. right. apply IH. exact H.
+Qed.
+
+Lemma m_get_none a m : m_get a m = None -> ~ In a (keys m).
+Proof.
+  unfold keys. induction m as [|[k v] t IH]; cbn [m_get map fst In]; [ tauto | ].
+  destruct (k =? a) eqn:E; [ discriminate | ]. apply N.eqb_neq in E. intros H [Hk|Hin]; [ contradiction | ].
+  exact (IH H Hin).
+Qed.
+
+(* Member { member } of the flex whitelist: the stored pair, an error exactly when the
+   (well-formed) address is not stored *)
+Lemma q_member_stored a w c : q_member valid a w = Ok c -> w_kind w = KFlex /\ In (a, c) (w_mem w).
+Proof.
+  unfold q_member. destruct (w_kind w); try discriminate. destruct (valid a); [ | discriminate ].
+  destruct (m_get a (w_mem w)) as [c'|] eqn:E; [ | discriminate ].
+  intros H. injection H as <-. split; [ reflexivity | apply m_get_In; exact E ].
+Qed.
+
+Lemma q_member_missing a w :
+  w_kind w = KFlex -> valid a = true -> q_member valid a w = Err -> ~ In a (keys (w_mem w)).
+Proof.
+  unfold q_member. intros -> ->. destruct (m_get a (w_mem w)) eqn:E; [ discriminate | ].
+  intros _. apply m_get_none. exact E.
+Qed.
+
+Lemma tq_member_stored now a w c :
+  tq_member valid now a w = Ok c ->
+  t_flex w = true /\ exists k, active_index now 0 (t_stages w) = Some k /\ In (k, a, c) (t_mem w).
+Proof.
+  unfold tq_member. destruct (t_flex w); [ | discriminate ]. destruct (valid a); [ | discriminate ].
+  destruct (active_index now 0 (t_stages w)) as [k|]; [ | discriminate ].
+  destruct (t_get k a (t_mem w)) as [c'|] eqn:E; [ | discriminate ].
+  intros H. injection H as <-. split; [ reflexivity | ]. exists k. split; [ reflexivity | apply t_get_In; exact E ].
+Qed.
+
 End Q.
 
 (* whitelist-immutable *)
